@@ -52,36 +52,24 @@ Proof.
 Qed.
 Print Assumptions C13_box_int.
 
-(* Gaussian: the code's closed form is the integral of the profile values for
-   intervals inside the support window ... *)
-Theorem C13_gauss_int_partial : forall (erfR : R -> R),
-  (forall x, is_derive erfR x (2 / sqrt PI * exp (- (x * x)))) ->
-  forall tu ts te sg tol t1 t2, 0 < sg -> ts <= t1 -> t1 <= t2 -> t2 <= te ->
-  is_RInt (t_call (RNum erfR) (Gauss tu ts te sg tol) None) t1 t2
-          (t_int (RNum erfR) (Gauss tu ts te sg tol) None t1 t2).
-Proof. exact gauss_is_RInt_inside. Qed.
-Print Assumptions C13_gauss_int_partial.
-
-(* ... for an arbitrary interval the integral of the values is the closed form of the
-   interval clipped to the window ... *)
-Theorem C13_gauss_int_clipped : forall (erfR : R -> R),
+(* Gaussian (after fix 0a1ba7d: the integration range is clipped to the support window):
+   get_integral is the integral of the profile values for EVERY interval; inside the window
+   it is the plain erf difference.  Before the fix this was refuted outside the window. *)
+Theorem C13_gauss_int : forall (erfR : R -> R),
   (forall x, is_derive erfR x (2 / sqrt PI * exp (- (x * x)))) ->
   forall tu ts te sg tol t1 t2, 0 < sg -> ts <= te -> t1 <= t2 ->
   is_RInt (t_call (RNum erfR) (Gauss tu ts te sg tol) None) t1 t2
-    (if Rle_dec ts t2 then if Rle_dec t1 te
-     then t_int (RNum erfR) (Gauss tu ts te sg tol) None (Rmax t1 ts) (Rmin t2 te) else 0 else 0).
-Proof. exact gauss_is_RInt_clipped. Qed.
-Print Assumptions C13_gauss_int_clipped.
+          (t_int (RNum erfR) (Gauss tu ts te sg tol) None t1 t2).
+Proof. exact gauss_is_RInt. Qed.
+Print Assumptions C13_gauss_int.
 
-(* ... and the full statement is refuted: beyond the window the values integrate to 0
-   while get_integral returns the (positive) tail mass. *)
-Theorem C13_gauss_int_refuted : forall (erfR : R -> R),
-  (forall x, is_derive erfR x (2 / sqrt PI * exp (- (x * x)))) ->
-  exists tu ts te sg tol t1 t2, 0 < sg /\ ts <= te /\ t1 <= t2
-    /\ is_RInt (t_call (RNum erfR) (Gauss tu ts te sg tol) None) t1 t2 0
-    /\ t_int (RNum erfR) (Gauss tu ts te sg tol) None t1 t2 <> 0.
-Proof. exact gauss_refuted. Qed.
-Print Assumptions C13_gauss_int_refuted.
+Theorem C13_gauss_int_inside : forall (erfR : R -> R) tu ts te sg tol t1 t2,
+  ts <= t1 -> t1 <= t2 -> t2 <= te ->
+  t_int (RNum erfR) (Gauss tu ts te sg tol) None t1 t2 =
+    sqrt (PI / 2) * sg * erfR ((t2 - (ts + te) / 2) / (sqrt 2 * sg))
+    - sqrt (PI / 2) * sg * erfR ((t1 - (ts + te) / 2) / (sqrt 2 * sg)).
+Proof. exact gauss_int_inside. Qed.
+Print Assumptions C13_gauss_int_inside.
 
 (* ---------------------------------------------------------------- product *)
 Theorem C13_product : forall (erfR : R -> R) s l Phi0 ls le lt sp ep tp rd E t eu tu,
